@@ -310,8 +310,10 @@ def run(ctx):
         ctx.case({"xops": ops, "log": log, "queue": q, "dropped": dropped},
                  nontrivial=nfat > 0 and sum(1 for o in ops if o[0] == "enq") >= 2,
                  kind="raises=%d,transient=%d" % (min(nfat, 3), min(ntr, 3)))
-        cases.append(("(let s := runx %s in (xlog s, xq s ++ [(-1, -1)] ++ xdropped s))" % c_opsx(ops),
-                      "(%s, %s)" % (c_pkts(log), c_pkts(q + [(-1, -1)] + dropped))))
+        left = [x for r in XLOG for x in r["sent"] + r["gone"]]   # departure order: sent / lost with its exception
+        co = c_opsx(ops)
+        cases.append(("(let s := runx %s in (xlog s ++ [(-1, -1)] ++ leftsx %s initx, xq s ++ [(-1, -1)] ++ xdropped s))" % (co, co),
+                      "(%s, %s)" % (c_pkts(log + [(-1, -1)] + left), c_pkts(q + [(-1, -1)] + dropped))))
         metas.append((ops, log, q))
         xmetas.append(ops)
 
@@ -342,7 +344,7 @@ def run(ctx):
         addx(ops)
 
     header = ("From Coq Require Import List ZArith Bool.\nImport ListNotations.\n"
-              "Require Import V.C35.Model.\nOpen Scope Z_scope.\n"
+              "Require Import V.C35.Model V.C35.FatalOrder.\nOpen Scope Z_scope.\n"
               "Definition pk_eqb (a b : Z*Z) := Z.eqb (fst a) (fst b) && Z.eqb (snd a) (snd b).\n"
               "Fixpoint l_eqb (a b : list (Z*Z)) := match a, b with [], [] => true | x::a', y::b' => pk_eqb x y && l_eqb a' b' | _, _ => false end.\n"
               "Definition r_eqb (a b : list (Z*Z) * list (Z*Z)) := l_eqb (fst a) (fst b) && l_eqb (snd a) (snd b).\n")
